@@ -881,6 +881,8 @@ func (fc *FuncCtx) loadAt(st *State, prefix string, idx, idxSorts []string, path
 func (fc *FuncCtx) storeAt(st *State, prefix string, idx, idxSorts []string, path string, t types.Type, v Value) {
 	upd := func(key, sort, val string) {
 		if len(idx) == 0 {
+			// (the sort is recorded so that a join with a path that never touched the component can materialise it)
+			fc.compSorts[key] = sort
 			st.heap[key] = val
 			return
 		}
